@@ -134,7 +134,7 @@ def run(tier):
         "states": len(methods),
         "transitions": st["expected"],
         "bound": {"tier": tier, "methods": len(methods), "calls": len(r["cases"]), "struct_layouts": len(b["types"]["structs"]),
-                  "kinds": {k: sum(1 for m in methods if m["kind"] == k) for k in ("P", "R", "PR", "W", "CB")}},
+                  "kinds": {k: sum(1 for m in methods if m["kind"] == k) for k in ("P", "R", "PR", "W", "CB", "CL")}},
         "symbols_checked": nsym,
         "sanitizers": "gcc -fsanitize=address,undefined",
         "build_s": round(b["build_s"], 1),
